@@ -200,13 +200,16 @@ theorem second_call_no_effect (u : W64) (s : State) (f : Nat) (p p' a : W64)
   by_cases hg : g = f
   · subst hg
     have h1 : (stepF u (.firstCall g p) g (s g)).kind ≠ .lazyWrapper ∧
-        (stepF u (.firstCall g p) g (s g)).kind ≠ .bbWrapper := by
+        (stepF u (.firstCall g p) g (s g)).kind ≠ .bbWrapper ∧
+        ((stepF u (.firstCall g p) g (s g)).kind = .shim →
+          (stepF u (.firstCall g p) g (s g)).interpData = true) := by
       simp only [stepF, if_true]
       cases hk : (s g).kind <;> simp [hk, genCode_kind _ _ _ ha, genBB_kind _ _ _ ha]
     simp only [step]
     generalize stepF u (.firstCall g p) g (s g) = x at h1 ⊢
     simp only [stepF, if_true]
     cases hx : x.kind <;> simp_all
+    cases x; simp_all
   · simp [step, stepF, hg]
 
 /-- **machine_code_once**: generated code never moves and is never regenerated (so the direct
@@ -218,34 +221,35 @@ theorem machine_code_once (u : W64) (s : State) (h : List Event) (f : Nat) (c : 
   | cons e h ih =>
     rw [run_cons]
     apply ih
-    have hg : ∀ p, ((s f).genCode p).machineCode = some c := by
-      intro p; simp [FuncSt.genCode, hc, redirectTo_machineCode]
-    have hb : ∀ p, ((s f).genBB p).machineCode = some c := by
-      intro p; simp [FuncSt.genBB, hc, redirectTo_machineCode]
-    have hi : ∀ i p, ((s f).setIface i p).machineCode = some c := by
-      intro i p; cases i <;> simp [FuncSt.setIface, redirectTo_machineCode, hc, hg]
+    have hg : ∀ (t : FuncSt) p, t.machineCode = some c → (t.genCode p).machineCode = some c := by
+      intro t p ht; simp [FuncSt.genCode, ht, redirectTo_machineCode]
+    have hb : ∀ (t : FuncSt) p, t.machineCode = some c → (t.genBB p).machineCode = some c := by
+      intro t p ht; simp [FuncSt.genBB, ht, redirectTo_machineCode]
+    have hi : ∀ (t : FuncSt) i p, t.machineCode = some c → (t.setIface i p).machineCode = some c := by
+      intro t i p ht; cases i <;> simp [FuncSt.setIface, redirectTo_machineCode, ht, hg]
     cases e with
     | load fs t => simp only [step, stepF]; split
                    · simp only [FuncSt.load]
                      split <;> simp [redirectTo_machineCode, hc]
                    · exact hc
     | link i p => simp only [step, stepF]; split
-                  · simp [hi]
+                  · exact hi { (s f) with interpData := false } i (p f) hc
                   · exact hc
     | setIface i g p => simp only [step, stepF]; split
-                        · exact hi i p
+                        · exact hi _ i p hc
                         · exact hc
     | firstCall g p => simp only [step, stepF]; split
                        · split
-                         · exact hg p
-                         · exact hb p
+                         · exact hg _ p hc
+                         · exact hb _ p hc
+                         · exact hc
                          · exact hc
                        · exact hc
     | gen g p => simp only [step, stepF]; split
-                 · exact hg p
+                 · exact hg _ p hc
                  · exact hc
     | bbgen g p => simp only [step, stepF]; split
-                   · exact hb p
+                   · exact hb _ p hc
                    · exact hc
 
 example : (run 0x400000#64 init
